@@ -909,3 +909,36 @@ def instrument_feeds_own(ctx):
     ctx.check("InstrumentState::update_from_trade", ok,
               "the closed-position record of this instrument's position manager feeds this instrument's own tear sheet, exactly "
               "when a position was closed, and is returned unchanged", got=[x[1:] for x in ups] + [render(b.return_term())[:120]], key="feeds-own")
+
+
+def channel_passthrough(ctx):
+    """the workspace's channel wrappers add nothing to tokio's unbounded mpsc channel: one channel per `mpsc_unbounded()`, `send`
+    hands the item itself to the sender, the receiver's Stream / into_stream forms poll the receiver itself - so order and
+    exactly-once delivery are tokio's (an added buffer, batch or filter on either end would be the workspace's own)"""
+    want = {
+        "<barter_integration::channel::UnboundedRx<T> as futures::Stream>::poll_next": ({"true": ["UnboundedReceiver::poll_recv(self.rx, cx)"]}, ["UnboundedReceiver::poll_recv"]),
+        "barter_integration::channel::UnboundedRx::<T>::into_stream": ({"true": ["UnboundedReceiverStream::new(self.rx)"]}, []),
+        "<barter_integration::channel::UnboundedTx<T> as barter_integration::channel::Tx>::send": (None, []),
+        "<barter_integration::channel::UnboundedTx<T> as futures::Sink<T>>::start_send": (None, []),
+        "barter_integration::channel::mpsc_unbounded":
+            ({"true": ["tuple{0: UnboundedTx::UnboundedTx{tx: mpsc::unbounded_channel().0}, 1: UnboundedRx::UnboundedRx{rx: mpsc::unbounded_channel().1}}"]}, []),
+    }
+    n = 0
+    for d, (tab, muts) in want.items():
+        if d not in ctx.facts.bodies:
+            raise Exception("anchor not found: " + d)
+        b = ctx.ibody(d)
+        got_tab = case_table(b)
+        got_muts = [mir.short(tm[1]) for bi, t, tm in b.real_calls() if b.mut_args(t)]
+        sends = [render(tm) for bi, t, tm in b.real_calls() if mir.short(tm[1]) == "UnboundedSender::send"]
+        if tab is None:
+            ok = sends in (["UnboundedSender::send(self.tx, item)"], ["UnboundedSender::send(self.tx, Into::into(item))"]) and got_muts == muts and \
+                all(b.guard(bi) == frozenset([frozenset()]) for bi, t, tm in b.real_calls() if mir.short(tm[1]) == "UnboundedSender::send")
+            got = sends
+        else:
+            ok = got_tab == tab and got_muts == muts
+            got = {"returns": got_tab, "mutating calls": got_muts}
+        n += 1
+        ctx.check(mir.short(d), ok, "a plain pass-through to the tokio channel end it wraps (no buffering, batching, filtering or reordering of its own)",
+                  got=got, key="channel-passthrough")
+    ctx.floor("channel wrapper functions", n, 5)
